@@ -338,11 +338,11 @@ theorem parseHeader_dispValue (name : Str) (filename : Option Str) :
   cases filename with
   | none =>
     simp only [fnSegs, fnParams, rawParams, List.filterMap_cons, List.filterMap_nil, hsf1, Option.map_some, hl1, strip_quoted,
-      groupParams, hc1, hu, List.nil_append, List.foldl_cons, List.foldl_nil, hu', C43.dset, List.any_nil,
+      groupParams, hc1, hu, List.nil_append, List.foldl_cons, List.foldl_nil, hu', C43.dset, C43.mixedConts, List.any_nil,
       Bool.false_eq_true, if_false, List.foldlM_nil, pure, Except.pure]
   | some fn =>
     simp only [fnSegs, fnParams, rawParams, List.filterMap_cons, List.filterMap_nil, hsf1, hsf2, Option.map_some, hl1, hl2, strip_quoted,
       groupParams, hc1, hc2, hu, List.nil_append, List.cons_append, List.foldl_cons, List.foldl_nil, emailUnquote_quoted, C43.dset, hne,
-      List.any_nil, Bool.false_eq_true, if_false, List.foldlM_nil, pure, Except.pure]
+      C43.mixedConts, List.any_nil, Bool.false_eq_true, if_false, List.foldlM_nil, pure, Except.pure]
 
 end TornadoModel.C30
